@@ -6,6 +6,7 @@
 From Coq Require Import ZArith List.
 From mathcomp Require Import all_ssreflect all_algebra.
 From SV Require Import Names Rep Complex Homology ListMat SnfCount Rank Betti EulerP RepInv Shapes ShapesReach.
+From SV Require VInv Gen EulerInt.
 
 Theorem C19_chi_def : forall r, eulerCharacteristic r = alt_sum (Zpos xH) (numberOfSimplicesOfOrder r).
 Proof. reflexivity. Qed.
@@ -34,3 +35,40 @@ Theorem C19_chi_is_alternating_betti_sum_every_history :
   eulerCharacteristic r = alt_sumZ (Zpos xH) (List.map (betti1 r) (List.seq 0 (r_nord r))).
 Proof. exact reachable_euler. Qed.
 Print Assumptions C19_chi_is_alternating_betti_sum_every_history.
+
+(* THE EULER INTEGRAL, every complex that meets the vertex-set reading (C01), every heap of attribute
+   dictionaries, attribute name and default: when every simplex's metric reads as a number and the
+   points' metrics are non-negative, integrate(c) is the sum over the simplices of (-1)^order times
+   the smallest metric among the simplex's points (default where the attribute is missing) ... *)
+Theorem C19_integral_is_simplexwise_sum :
+  forall hp a d c, VInv.vinv c ->
+  (forall s, containsSimplex c s = true -> exists z, Gen.metric hp c a d s = Ok z) ->
+  (forall p i, assoc p (r_simp c) = Some (0, i) -> Z.le Z0 (EulerInt.m hp a d c p)) ->
+  Gen.integrate hp c a d =
+  Ok (EulerInt.zsum (fun t => Z.mul (EulerInt.sgn (EulerInt.ord c t)) (EulerInt.minm hp a d c t)) (simplices c false)).
+Proof. exact EulerInt.integrate_is_simplexwise_sum. Qed.
+Print Assumptions C19_integral_is_simplexwise_sum.
+(* ... equivalently the sum over the levels l = 0, 1, .. (below the largest metric) of the Euler
+   characteristic of c restricted to the points whose metric exceeds l *)
+Theorem C19_integral_is_levelwise_sum :
+  forall hp a d c, VInv.vinv c ->
+  (forall s, containsSimplex c s = true -> exists z, Gen.metric hp c a d s = Ok z) ->
+  (forall p i, assoc p (r_simp c) = Some (0, i) -> Z.le Z0 (EulerInt.m hp a d c p)) ->
+  Gen.integrate hp c a d =
+  Ok (EulerInt.zsum (fun l => eulerCharacteristic (fst (Gen.levelSet hp c a d (Z.of_nat l))))
+        (List.seq 0 (Z.to_nat (List.fold_right Z.max Z0 (List.map (Gen.metric0 hp c a d) (simplices c false)))))).
+Proof. exact EulerInt.integrate_is_levelwise_sum. Qed.
+Print Assumptions C19_integral_is_levelwise_sum.
+(* ... and over isolated points it is the sum of their values *)
+Theorem C19_integral_over_isolated_points :
+  forall hp a d c, VInv.vinv c ->
+  (forall s, containsSimplex c s = true -> exists z, Gen.metric hp c a d s = Ok z) ->
+  (forall p i, assoc p (r_simp c) = Some (0, i) -> Z.le Z0 (EulerInt.m hp a d c p)) ->
+  le (r_nord c) 1 -> Gen.integrate hp c a d = Ok (EulerInt.zsum (EulerInt.m hp a d c) (simplices c false)).
+Proof. exact EulerInt.integrate_isolated_points. Qed.
+Print Assumptions C19_integral_over_isolated_points.
+(* the Euler characteristic is the sum over the simplices of (-1)^order *)
+Theorem C19_chi_is_sum_of_signs :
+  forall r, pinv r -> eulerCharacteristic r = EulerInt.zsum (fun t => EulerInt.sgn (EulerInt.ord r t)) (simplices r false).
+Proof. exact EulerInt.euler_as_sum. Qed.
+Print Assumptions C19_chi_is_sum_of_signs.
